@@ -41,6 +41,10 @@ func (ex *Exec) step(fr *frame, st *State, reach *Term, instr ssa.Instruction, e
 			if t, ok := v.(*Term); ok {
 				t = vc.Def(fr.fn.Name()+"."+in.Name(), t)
 				ex.assumeAlive(st, reach, t, in.Type())
+				if g, isG := in.X.(*ssa.Global); isG && t.Sort == SInt && ex.eng.nonNilGlobal(g) {
+					vc.Assume(reach, Not(Eq(t, IntLit(0))))
+					vc.note("package-level error sentinels initialised by errors.New/fmt.Errorf and never reassigned are non-nil")
+				}
 				v = t
 			}
 			fr.env[in] = v
